@@ -47,7 +47,10 @@ def cfg_for_case(rng, k: int, traditional: bool = False) -> GenCfg:
         c.msg_bits = 64
         c.max_fields = 10
     elif r == 6:
-        c.packing = 1.0
+        # packing option on some files and not on others (or with another value), messages of the other file embedded by value
+        c.packing = 1.0 if k % 16 == 6 else 0.6
+        c.n_imports = (1, 2) if k % 16 == 14 else (0, 1)
+        c.p_as_name = 0.5
     elif r == 7:
         c.msg_bits = 6000
         c.big_caps = True
